@@ -1585,6 +1585,7 @@ func (p *Program) fillContract(fc *FuncContract, clauses []*rawClause, body *ast
 			fc.only = append(fc.only, strings.Fields(rc.text)...)
 		case "theory":
 			// theory numerals: the generator's lemmas about decimal numerals are added at string operations of this body
+			// theory strlen: strOf(...) under a quantifier carries len(strOf(b)) == len(b)
 			fc.theories = append(fc.theories, strings.Fields(rc.text)...)
 		case "safetyonly":
 			// safetyonly: only the panic-freedom obligations of this body are kept (callee preconditions, frames and the
